@@ -106,7 +106,7 @@ Example C08_example_history :
   run sem h fresh_p <> fresh_p /\
   cfg (ptable no_defects) h = [(OApply, demo_in [] [] [WithDialect 1])] /\
   result sem (run sem h fresh_p) (OParse, demo_in [5; 7; 8; 7; 1] [] []) = RTrees (POk [42]) (0, 0) /\
-  result sem fresh_p (OParse, demo_in [5; 7; 8; 7; 1] [] []) = RTrees (PErr 1000) (0, 0).
+  result sem fresh_p (OParse, demo_in [5; 7; 8; 7; 1] [] []) = RTrees (PErr 1000%N) (0, 0).
 Proof. vm_compute. repeat split. discriminate. Qed.
 
 (* the obtainable hypothesis is satisfiable by a pooled, previously dirty instance *)
